@@ -351,7 +351,15 @@ def _ids_rules(E: Engine, rep: Report) -> None:
     #     calls waiting to be built (obj["to_build_calls"]) AFTER it (so they are only stored)
     log_oh = S(E, oh, inline=False).log
     def _replays(key_):
-        return [i for i, l in enumerate(log_oh) if l.kind == "call" and l.value[1][0] == "call" and l.value[1][1] == ("name", "getattr") and l.loops and any(t == ("const", key_) for t in sym.subterms(l.loops[-1]))]
+        direct = [i for i, l in enumerate(log_oh) if l.kind == "call" and l.value[1][0] == "call" and l.value[1][1] == ("name", "getattr") and l.loops and any(t == ("const", key_) for t in sym.subterms(l.loops[-1]))]
+        # ... or through a private helper of the decoder that is handed obj[<key>] and replays it (getattr(seq, name)(...))
+        via = []
+        for i, l in enumerate(log_oh):
+            if l.kind == "call" and l.value[1][0] == "attr" and l.value[1][2].startswith("_") and any(any(t == ("const", key_) for t in sym.subterms(a_)) for a_ in l.value[2]):
+                hs = [g for g in E.P.all_functions() if g.name == l.value[1][2] and g.cls is oh.cls]
+                if hs and any(isinstance(n_, ast.Call) and isinstance(n_.func, ast.Call) and isinstance(n_.func.func, ast.Name) and n_.func.func.id == "getattr" for n_ in ast.walk(hs[0].node)):
+                    via.append(i)
+        return direct + via
     i_calls, i_tb = _replays("calls"), _replays("to_build_calls")
     i_bld = [i for i, l in enumerate(log_oh) if l.kind == "store" and l.target is not None and l.target[0] == "attr" and l.target[2] == "_building"]
     if not i_calls or not i_tb or not i_bld:
